@@ -211,15 +211,17 @@ theorem C03_blocked_registered_or_woken (s : St) (h : Reachable s) (i : Nat)
     i ∈ s.blocked ∨ ∃ rest left, s.r = RPc.lock2 rest left ∧ i ∈ rest :=
   blocked_registered_or_woken s h i hc
 
-/-- **Every kernel entry runs the wake pass** (Ok, ETIME and EINTR alike — the `fix:` commit),
-whatever was submitted or consumed. -/
-theorem C03_blocked_enter_always_wakes (s : St) (n : Nat) (hr : s.r = RPc.enter n) :
+/-- **Every return from the kernel runs the wake pass** (Ok, ETIME and EINTR alike — the `fix:`
+commit fcfcfbe), whatever was submitted or consumed. (`block = false`: the call does not wait for a
+completion — it has a timeout, or futures were waiting for a slot when it started.) -/
+theorem C03_blocked_enter_always_wakes (s : St) (n : Nat) (hr : s.r = RPc.enter n)
+    (hb : s.block = false) :
     (stepR s).r = RPc.w1 ∧ (stepR s).H = s.H + min n (s.T - s.H) ∧
     (stepR (stepR s)).r = RPc.w2 (s.H + min n (s.T - s.H)) ∧
     (stepR (stepR (stepR s))).r =
       if s.len - (s.T - (s.H + min n (s.T - s.H))) = 0 then RPc.idle
       else RPc.tryLock (s.len - (s.T - (s.H + min n (s.T - s.H)))) :=
-  blocked_enter_always_wakes s n hr
+  blocked_enter_always_wakes s n hr hb
 
 /-- **A wake pass is effective**: with `avail ≥ 1` free slots and a non-empty list it invokes the
 `min(avail, #blocked)` OLDEST wakers. -/
@@ -247,18 +249,101 @@ theorem C03_blocked_old_enter_loses_wake :
     (∀ k : Nat, (quietPollsOld k lostState).blocked = [1] ∧ (quietPollsOld k lostState).woken = []) ∧
     (quietPoll lostState).woken = [1] ∧ (quietPoll lostState).blocked = [] := by
   have h := blocked_old_enter_loses_wake
-  exact ⟨h.1, h.2.1, h.2.2.2.1, h.2.2.2.2.2.1, h.2.2.2.2.2.2.1, h.2.2.2.2.2.2.2⟩
+  exact ⟨h.1, h.2.1, h.2.2.2.1, h.2.2.2.2.1, h.2.2.2.2.2.1, h.2.2.2.2.2.2⟩
+
+/-! #### Polls without a timeout (fix d4303dd)
+
+"… is likewise woken by a subsequent Ring::poll call once room is available, even if no other
+operation ever completes": a `Ring::poll(None)` only gets to the wake pass when `io_uring_enter`
+returns, and with nothing completing it does not return. Since d4303dd the call looks at the blocked
+list first and does not wait if a future is waiting for a slot. -/
+
+/-- A `Ring::poll(None)` that starts while a future is waiting for a slot does not wait in the
+kernel: it submits what is queued and goes on to the wake pass (any state). -/
+theorem C03_blocking_poll_does_not_wait_with_blocked (s : St) (hr : s.r = RPc.idle)
+    (ht : s.H ≤ s.T) (hb : s.blocked ≠ []) :
+    let s1 := stepR (startPollT s true)
+    s1.r = RPc.enter (s.T - s.H) ∧ s1.block = false ∧ (stepR s1).r = RPc.w1 ∧
+    (stepR s1).H = s.T := by
+  have he : s.blocked.isEmpty = false := by
+    cases hbl : s.blocked with
+    | nil => exact absurd hbl hb
+    | cons a l => rfl
+  simp [startPollT, hr, stepR, he]
+  omega
+
+/-- **Bounded response without a timeout**: once no future is in the middle of a poll, ONE
+`Ring::poll(None)` of the ring thread — nothing completes, the kernel only consumes the queue — wakes
+the `min len #blocked` oldest blocked futures, exactly like a poll with a timeout, provided at least
+one future is waiting. -/
+theorem C03_blocking_poll_wakes (s : St) (hq : Quiet s) (hb : s.blocked ≠ []) :
+    let t := runMv s [.pollInf, .r, .r, .r, .r, .r, .r]
+    t.woken = s.woken ++ s.blocked.take s.len ∧ t.blocked = s.blocked.drop s.len ∧
+    t.r = RPc.idle ∧ t.H = s.T := by
+  obtain ⟨len, H, T, subLock, blocked, f, r, woken, pushed, inf, block⟩ := s
+  obtain ⟨_, hr, _, hl, ht, _⟩ := hq
+  simp only at hr hl ht hb
+  subst hr
+  have e2 : H + (T - H) = T := by omega
+  have e4 : ¬ len = 0 := by omega
+  cases blocked with
+  | nil => exact absurd rfl hb
+  | cons b bs =>
+    simp [runMv, stepMv, startPollT, stepR, e2, e4, drop_min_length]
+
+/-- Before d4303dd (`block := inf`, the blocked list is not looked at) the same call waits in the
+kernel with the future still registered, a free slot and nothing that will ever complete: two
+futures on a queue of one slot, the second registers, `Ring::poll(None)`. Now it wakes it. -/
+def stepRNoCheck (s : St) : St :=
+  match s.r with
+  | .start => { s with r := .enter (s.T - s.H), block := s.inf }
+  | _ => stepR s
+
+def waitTrace : List Mv := [.f 0, .f 0, .f 0, .f 0, .f 0, .f 0, .f 1, .f 1, .f 1]
+
+theorem C03_blocking_poll_before_fix_waits :
+    (let s := runMv (init 1 2 0) waitTrace
+     Quiet s ∧ s.blocked = [1] ∧ s.T - s.H = 1) ∧
+    (let s := runMv (init 1 2 0) waitTrace
+     let t := stepR (stepRNoCheck (startPollT s true))
+     t.r = RPc.waiting ∧ t.blocked = [1] ∧ t.woken = [] ∧ t.T - t.H = 0 ∧ stepR t = t) ∧
+    (let s := runMv (init 1 2 0) waitTrace
+     (runMv s [.pollInf, .r, .r, .r, .r, .r, .r]).woken = [1]) := by
+  refine ⟨by decide, ?_, by decide⟩
+  refine ⟨by decide, by decide, by decide, by decide, rfl⟩
+
+/-- A future on ANOTHER thread that finds the queue full while the ring thread already waits in the
+kernel (`Ring::poll(None)`, nothing completing): the queue is full of entries nobody has submitted —
+there is no room, and none of it reaches the kernel, until the ring thread enters again; that is
+what `SubmissionQueue::wake` is for (C11: the call returns). Whatever makes the call return (`io`:
+the wake-up message, or any completion), the NEXT call sees the waiting future, does not wait
+although it has no timeout, submits the queue and wakes the future. -/
+def crossTrace : List Mv :=
+  [.f 0, .f 0, .f 0, .f 0, .f 0, .f 0, .pollInf, .r, .r, .f 1, .f 1, .f 1, .f 1, .f 1, .f 1,
+   .f 2, .f 2, .f 2]
+
+theorem C03_registration_while_poll_waits :
+    let s := runMv (init 1 3 0) crossTrace
+    Reachable s ∧ s.r = RPc.waiting ∧ s.blocked = [2] ∧ s.woken = [] ∧ s.T - s.H = s.len ∧
+    (stepR s).r = RPc.waiting ∧
+    (let t := runMv s [.io, .r, .r, .pollInf, .r, .r]
+     t.r = RPc.w1 ∧ t.block = false ∧ t.T - t.H = 0) ∧
+    (runMv s [.io, .r, .r, .pollInf, .r, .r, .r, .r, .r, .r]).woken = [2] := by
+  refine ⟨⟨1, 3, 0, crossTrace, Nat.le_refl 1, rfl⟩, ?_⟩
+  decide
 
 end A10.Blocked
 
-/-! ### What (b) does not promise: a poll that never returns
+/-! ### A blocked future and a free slot between two polls
 
-The wake pass runs after `io_uring_enter` has returned. The theorems above therefore speak about
-`Ring::poll` calls that return. The state below is reachable (three operations on a queue of one
-entry; the future that was woken for the freed slot is dropped without using it): a future is still
-on the blocked list, a slot is free, nothing is queued, nothing has completed — a `Ring::poll(None)`
-would now wait in the kernel for the completion of the one operation in flight. Recorded as an
-observation in DESIGN.md §10.3; with a timeout the poll returns and `C03_blocked_progress` applies. -/
+The wake pass runs after `io_uring_enter` has returned. The state below is reachable (three
+operations on a queue of one entry; the future that was woken for the freed slot is dropped without
+using it): a future is still on the blocked list, a slot is free, nothing is queued, nothing has
+completed. Before d4303dd a `Ring::poll(None)` would now wait in the kernel for the completion of the
+one operation in flight (the observation F20 of earlier sessions, reproduced on the real kernel:
+`seeded/_repro/f20_blocked.rs`); since d4303dd the call sees the blocked list and does not wait
+(`C03_blocking_poll_does_not_wait_with_blocked`), and every poll that returns runs the wake pass
+(`C03_blocked_progress`). -/
 
 namespace A10.Life
 
